@@ -12,7 +12,7 @@ ALLOWED_AXIOMS = []     # the development is axiom-free; anything Print Assumpti
 TABLES = False
 NEED_BINARY = True
 RELEASE_HARNESS = False
-HOOK_COMMITS = []
+HOOK_COMMITS = ["fae2886e"]
 NOT_YET = {}
 
 def _cache_nontrivial(line):
@@ -152,6 +152,15 @@ PROPS = {
         "level_text": "Proved in Coq: for every list of Unicode scalar values parse(quote(escape s)) = s (all nine escape cases, \\u00XX for every control character by arithmetic on the hex digits); for every JSON value (unbounded nesting and width, numbers as f64 Display prints them, arbitrary object keys) parse(stringify v) = v, by induction over values with the parser's whitespace skipping and separators. The model is tied to the code by comparing quote / parse_quoted_json_string / parse on thousands of generated and malformed texts, the \\u window handling is regenerated from the source; an independent strict parser confirms the output is standard JSON with the same meaning.",
         "level_note": "Trusted: Coq kernel; model coq/Model/Json.v over scalar values (the byte-level parser only inspects ASCII bytes; validated for all BMP + sampled astral characters); f64 Display/FromStr round trip and shape are Rust std guarantees (tested on generated floats, not modelled); BTreeMap key ordering (canonicalised in the driver); extraction + driver; harness with its own strict JSON parser. Print Assumptions: closed.",
         "partial": "f64 printing/parsing; TileJSON field mapping (from_object/as_object, narrowing) is tested through containers, not modelled",
+    },
+    "C18": {
+        "cmd": "c18",
+        "theorems": ["C18_gen_empty_value_accepted", "C18_quoted_value_roundtrip"],
+        "nontrivial": lambda l: "=> ok:" in l and ("91" in l.split(" => ")[0] or "124" in l.split(" => ")[0] or "34" in l.split(" => ")[0]),
+        "rule": "texts = 30 hand-picked cases + random syntax trees (nesting <= 3, 1-3 nodes per pipeline, 0-3 properties with 1-3 values over an alphabet that includes quotes, backslashes, line breaks, tabs, brackets, separators and non-ASCII, 0-3 nested source pipelines) rendered with random whitespace (space/tab/CR/LF at every optional position), random quoting (bare when possible), bracket lists or repeated keys, plus one mutation (delete/duplicate/insert/replace/truncate) of every third text; every text is parsed by parse_vpl (guarded re-export) and by the extracted Coq parser and the trees are compared (properties canonicalised as the BTreeMap does); spec level: parse(render(tree)) = tree, and 16 invalid pipelines (unknown operation, missing/mistyped parameters, too few sources) must be rejected without panic by PipelineFactory. non-trivial = an accepted text using brackets, pipes or quoted strings",
+        "level_text": "The Coq parser mirrors the nom combinators one to one (recoverable Error vs cut Failure, separator give-back in separated_list0, opt around source lists, escaped_transform's behaviour on an empty body). Proved so far: every value, whatever characters it contains (also the empty value), round-trips through quoted-string syntax; the pre-fix rejection of an empty quoted value is a refuted lemma. The full theorem `parse (print p) = p for every syntax tree and layout` is NOT yet proved (partial claim); agreement of the model with parse_vpl on trees and on accept/reject is checked on every run over randomly laid-out and mutated texts, and the spec-level round trip is checked on the implementation.",
+        "level_note": "Trusted: Coq kernel; model coq/Model/VPL.v (ASCII classes as in nom's AsChar for char); hook versatiles_pipeline::verif_hooks (guarded re-export of parse_vpl); extraction + driver (BTreeMap merge of repeated keys is done in the driver); harness. VPLDecode typed extraction and the factory lookup are tested at spec level only. Print Assumptions: closed.",
+        "partial": "whole-pipeline round-trip theorem for arbitrary layouts is not proved yet; typed parameter extraction (VPLDecode derive) is tested, not modelled",
     },
     "C20": {
         "cmd": "c20",
